@@ -14,7 +14,7 @@ add("C02", "property-based testing (rapid): grammar-based program generator with
     "Exploration: generated programs of both families under four trivia policies incl. CRLF, comments, shebang, close tags, heredocs, > 2 pool blocks; error-free byte-level inputs; directories of 1-24 generated files written back by `php-parser -pb` (built from the tree under test). Byte-exact comparison.",
     "Generated programs avoid the constructs behind open findings (counted in the evidence); lone CR between tokens is excluded because of finding lone-cr-newline.")
 add("C03", "property-based testing (rapid): programs generated as token-bearing ast trees from an independent model (constructors per construct, PHP manual precedence table); oracle: zero errors and structural + token + position equality with the model; exhaustive enumeration of operator nests (every operator in every operand position of every other, fusion-family triples; all triples in thorough); negative version-gating cases",
-    "Exploration: tens of thousands (thorough: > 1M) generated programs per run covering every node kind the generator can derive, all operator pairs, dangling else, keyword case; version gating by fixed PHP 7-only snippets and generated flexible heredocs. PHP itself is not available as referee: 'the tree PHP prescribes' is the generator's transcription of the language reference.",
+    "Exploration: tens of thousands (thorough: > 1M) generated programs per run covering every node kind the generator can derive, all operator pairs, dangling else, keyword case; version gating by fixed PHP 7-only snippets, generated programs that use at least one PHP 7-only construct (must be reported under 5.x) and generated flexible heredocs. PHP itself is not available as referee: 'the tree PHP prescribes' is the generator's transcription of the language reference.",
     "Oracle transcription errors are possible in principle; every disagreement found so far was resolved against the PHP manual. Five valid-PHP shapes are excluded as open findings.")
 add("C04", "property-based testing (rapid): byte-level inputs with rewritten line terminators + generated programs whose expected token sequence/positions come from the generator's own layout; invariant oracle over all tokens (slice equality, independent line model, tiling); thorough adds native go test -fuzz with the same oracle inside the target",
     "Exploration: all tokens and free-floating tokens of every returned tree are checked against the source and an independent line model; tiling/classification/leaf values on error-free inputs; exact expected token streams for generated programs.",
@@ -22,10 +22,10 @@ add("C04", "property-based testing (rapid): byte-level inputs with rewritten lin
 add("C05", "property-based testing (rapid): generated programs under all trivia policies + error-free byte-level inputs; oracle: recorded node span == span recomputed from the node's own token positions with the documented conventions, nesting and sibling order",
     "Exploration: every node of every error-free tree; coverage measured as distinct (kind < parent.slot, family) sites.",
     "Four test-pinned span deviations are tolerated by matchers keyed on node kind/slot/family and reported as KNOWN-FINDING.")
-add("C06", "property-based testing (rapid): valid generated programs + one guaranteed-invalid edit (bracket insert/delete, truncation inside brackets, control byte) must report; error-shape invariants and callback/no-callback differential on arbitrary inputs",
+add("C06", "property-based testing (rapid): valid generated programs + one guaranteed-invalid edit (bracket insert/delete, truncation inside brackets, control byte) must report; error-shape invariants and callback/no-callback differential on arbitrary inputs; thorough adds native go test -fuzz with the same oracle inside the target",
     "Exploration: guaranteed-invalid edits with an argument why no PHP grammar accepts them; error message/position/line/order invariants; silent parse => complete tiling tree; tree equality with and without callback incl. PHP 5 semantic-error programs.",
     "Grammar leniency is deliberately not probed (only edits with a proof of invalidity). PHP 5 semantic errors arrive out of source order (open finding).")
-add("C07", "property-based testing (rapid): metamorphic - insert a malformed statement at a drawn boundary of a drawn statement list of a generated program and compare with the error-free parse (prefix preserved, parsing resumes); print-clause invariants on every recovered tree",
+add("C07", "property-based testing (rapid): metamorphic - insert a malformed statement at a drawn boundary of a drawn statement list of a generated program and compare with the error-free parse (prefix preserved, parsing resumes); print-clause invariants on every recovered tree; thorough adds native go test -fuzz for the print clause",
     "Exploration: 18 malformed statements x all statement-list kinds x boundaries; prefix statements compared with tokens and positions; sentinel statement must be found after the error; recovered trees of byte-level inputs checked for invented/duplicated/reordered tokens.",
     "Class bodies are not covered (no error production there, outside the property's lists).")
 add("C08", "property-based testing (rapid): metamorphic - the same generated program rendered under a reference and 2-5 drawn trivia policies must parse to the same structure; plus hand-written pairs for lexer-state-specific gaps",
